@@ -32,7 +32,21 @@ let z_of_dec (s : string) : z =
   if Int64.equal v 0L then Z0
   else if Int64.compare v 0L > 0 then (match n_of_int64 v with Npos p -> Zpos p | N0 -> Z0)
   else (match n_of_int64 (Int64.neg v) with Npos p -> Zneg p | N0 -> Z0)
-let dec_of_n (v : n) : string = Printf.sprintf "%Ld" (int64_of_n v)
+(* decimal rendering of model numbers of any size (Go prints an int64; a model value may exceed it): bits of the
+   positive, most significant first, folded into a decimal digit string by doubling *)
+let dec_of_pos (p : positive) : string =
+  let rec bits (p : positive) (acc : int list) : int list =
+    match p with XH -> 1 :: acc | XO q -> bits q (0 :: acc) | XI q -> bits q (1 :: acc) in
+  let double_add (ds : int list) (b : int) : int list =
+    (* ds least significant digit first *)
+    let rec go ds carry = match ds with
+      | [] -> if carry = 0 then [] else [carry]
+      | d :: r -> let v = 2 * d + carry in (v mod 10) :: go r (v / 10) in
+    go ds b in
+  let ds = List.fold_left double_add [] (bits p []) in
+  String.concat "" (List.rev_map string_of_int ds)
+let dec_of_n (v : n) : string = match v with N0 -> "0" | Npos p -> dec_of_pos p
+let dec_of_z (v : z) : string = match v with Z0 -> "0" | Zpos p -> dec_of_pos p | Zneg p -> "-" ^ dec_of_pos p
 
 let rec nat_of_int (n : int) : nat = if n <= 0 then O else S (nat_of_int (n - 1))
 let rec int_of_nat (n : nat) : int = match n with O -> 0 | S m -> 1 + int_of_nat m
